@@ -65,7 +65,7 @@ const DEF_ALL: &str = "CREATE TABLE t('(.*)' => l TEXT);";
 const DEF_SELECTIVE: &str = "CREATE TABLE t('^keep:(.*)' => l TEXT);";
 const DEF_JOIN: &str = "CREATE TABLE t(q = '(.*)', q[1] => m TEXT, q[9] => k TEXT DEFAULT 'K'); CREATE TABLE u(p = '(.*)', p[1] => l TEXT, p[9] => k TEXT DEFAULT 'K');";
 
-const BODIES: [&str; 12] = ["", "a", "hello world", "keep:yes", "keep:", "ÅÄÖ €", "😀", "tab\there", "mid\rcr", "  spaced  ", "{\"j\": 1}", "keep:last"];
+const BODIES: [&str; 19] = ["", "a", "hello world", "keep:yes", "keep:", "ÅÄÖ €", "😀", "tab\there", "mid\rcr", "  spaced  ", "{\"j\": 1}", "keep:last", "\u{feff}keep:bom", "\u{feff}", "a\u{2028}b", "a\u{85}b", "nul\0nul", "ff\u{c}vt\u{b}", "\u{2029}"];
 
 fn file_bytes(file: &[LineSpec]) -> Vec<u8> {
     file.iter().flat_map(|l| l.bytes()).collect()
